@@ -12,6 +12,7 @@ RULE = ("seeded random trees built from the public classes: agents nested up to 
         "EnvironmentWrapper, sensors and actuators from leaves / dictionaries / wrappers (wrapper objects or plain functions) up to depth 4, an action value shaped like the actuator tree; in 30% of the trees distinct components of one class compare equal and hash alike (value-like objects); "
         "the dictionary composites of the trees are user subclasses with callbacks and a state of their own (in the model: a pseudo-child visited last) and a data hook (counted on the harness side: once per observation / action). "
         "every leaf reading is a new value and a second observation is taken at the end: the first one must still hold what it held (harness-side clause). "
+        "every mapping handed to a constructor is emptied (and, for agents, given a stranger) right afterwards: the composite must have its own. "
         "all eight root events are issued. Non-trivial = depth >= 3 somewhere and at least one dictionary and one wrapper; distinct = canonical JSON.")
 TRUSTED = [
     "Coq 8.16.1 kernel incl. vm_compute",
